@@ -219,6 +219,7 @@ impl Ctx {
                         match w.batch_read_for_topic(self.topic(*topic), 1 << 30, true, None) {
                             Ok(v) => {
                                 r.calls.push(v.len() as u32);
+                                r.call_steps.push(self.sim.step_now());
                                 if v.is_empty() {
                                     empties += 1;
                                 } else {
@@ -237,11 +238,13 @@ impl Ctx {
                         match w.read_next(self.topic(*topic), true) {
                             Ok(Some(e)) => {
                                 r.calls.push(1);
+                                r.call_steps.push(self.sim.step_now());
                                 empties = 0;
                                 r.entries.push(entry_sig(&e.data));
                             }
                             Ok(None) => {
                                 r.calls.push(0);
+                                r.call_steps.push(self.sim.step_now());
                                 empties += 1;
                             }
                             Err(e) => {
